@@ -1,6 +1,6 @@
 """C08 -- Rock Ridge fidelity for an independent SUSP/RRIP reader.  DESIGN.md section 8.8."""
 from harness import common, nsoracles, sysimg, sysprops
-from harness.props import celeaf, namesleaf, nlinkleaf, rrleaf
+from harness.props import celeaf, namesleaf, nlinkleaf, rrleaf, rrplaceleaf
 
 MODULE = 'C08'
 RECIPES = ['ce_gap_plus', 'ce_gap_exact', 'ce_gap_minus', 'deep_tree', 'long_symlinks', 'fat_dir_churn']
@@ -17,6 +17,7 @@ def run(ctx):
     namesleaf.leaf_correspondence(ctx, 'C08', symlinks=True, names=True)
     celeaf.leaf_correspondence(ctx)
     nlinkleaf.correspondence(ctx)
+    rrplaceleaf.leaf_correspondence(ctx)
     quick = ctx.tier == 'quick'
     sysprops.run_oracle(ctx, 'C08', sysprops.histories(ctx, 120 if quick else 2500, RECIPES,
                                                        dict(allow_refusals=False, long_rr=0.3, max_depth=6),
